@@ -5,6 +5,7 @@
   the point it returns); the theorems are about the glue: sign undo, constant term, index → name
   alignment, and the handle look-ups of `Solution.__getitem__`.
 -/
+import Optyx.Props.Dispatch
 import Optyx.Props.Glue
 import Optyx.Lemmas.SolveHandles
 import Optyx.Drive.Solve   -- one build of this module also builds the driver the check runs
